@@ -250,8 +250,9 @@ pub fn validate_tree(ctx: &mut Ctx, pfx: &str, lang: &Lang, tree: &Tree, text: &
             ctx.fail(
                 format!("{pfx}:tiling:uncovered"),
                 format!(
-                    "[{stage}] lang={} byte {i} (0x{b:02x}) is in no leaf and is not skippable; text={:?}\ntree={}",
+                    "[{stage}] lang={} ranges={:?} byte {i} (0x{b:02x}) is in no leaf and is not skippable; text={:?}\ntree={}",
                     lang.name,
+                    ranges.map(|r| r.iter().map(|x| (x.start_byte, x.end_byte)).collect::<Vec<_>>()),
                     show_bytes(&text.bytes, 300),
                     xt.render(l, 80)
                 ),
